@@ -267,6 +267,12 @@ def inject(text, kind, k):
         return text + '\n#zz_inj: /"q"/#nosuchrule\n'
     if kind == 'temporary-rule-ref':
         return text + '\n#_tinj: /"q"\n#zz_inj: /#_tinj/"r"\n'
+    if kind == 'temporary-rule-signer':
+        return text + '\n#_tinj: /"q"/"k"\n#zz_inj: /"q"/"r" <= #_tinj\n'
+    if kind == 'temporary-rule-among-signers':
+        return text + '\n#_tinj: /"q"/"k"\n#_tinj: /"q"/"j"\n#zz_k: /"q"/"kk"\n#zz_inj: /"q"/"r" <= #zz_k | #_tinj\n'
+    if kind == 'anonymous-temporary-rule-signer':
+        return text + '\n#_: /"q"/"k"\n#_: /"q"/"j"\n#zz_inj: /"q"/"r" <= #_\n'
     if kind == 'cyclic-reference':
         return text + '\n#zz_a: /"q"/#zz_b\n#zz_b: /#zz_a/"r"\n'
     if kind == 'cyclic-reference-in-redefinition':
@@ -303,7 +309,8 @@ def inject(text, kind, k):
     return None
 
 
-KINDS = ['undefined-rule', 'temporary-rule-ref', 'cyclic-reference', 'self-reference', 'cyclic-signing', 'self-signing',
+KINDS = ['undefined-rule', 'temporary-rule-ref', 'temporary-rule-signer', 'temporary-rule-among-signers',
+         'anonymous-temporary-rule-signer', 'cyclic-reference', 'self-reference', 'cyclic-signing', 'self-signing',
          'cyclic-signing-shared-key', 'cyclic-reference-in-redefinition', 'cyclic-reference-first-definition',
          'undefined-signer', 'unknown-pattern-constrained', 'unknown-pattern-option', 'unknown-pattern-fn-arg',
          'temporary-pattern-option', 'temporary-pattern-fn-arg']
